@@ -1222,14 +1222,21 @@ def run_packetrecv(ctx, known):
     import sim  # noqa: F401  (the overlay of the tree under check is active now)
     rv = rv_suite(ctx, known)
     rv.run(corr.load_corpus("C02", "packetrecv"), "corpus")
-    cases = RV.gen_cases(_SELF, ctx.rng, max(30, int(ctx.n(1500, 12000))), ctx.thorough)
+    cases = RV.gen_cases(_SELF, ctx.rng, max(40, int(ctx.n(800, 10000))), ctx.thorough)
+    bad_chunks = 0
     for i in range(0, len(cases), 50):
         chunk = cases[i:i + 50]
+        before = rv.stats["disagreements"] + rv.stats["oracle_failures"]
         rv.run(chunk)
         for c in chunk:
             for h in RV.trace(_SELF, c)[3]:
                 rv.stats["outcome_histogram"][h] += 1
             rv.stats["outcome_histogram"]["state-%s-%s" % (c["state"], c["receiver"])] += 1
+        if rv.stats["disagreements"] + rv.stats["oracle_failures"] > before:
+            bad_chunks += 1
+            if bad_chunks >= 3:          # failing inputs are on record (each chunk reports and shrinks up to 3); the rest would repeat them
+                rv.stats["outcome_histogram"]["stopped-after-3-failing-chunks"] += 1
+                break
     return rv
 
 
